@@ -272,8 +272,10 @@ impl Oracle for FallbackKf {
                                         && cycles.iter().any(|s| s.contains(&p) && s.contains(h))
                                         // the memo `h` is served from was itself computed as a
                                         // cycle member (a memo from an acyclic revision is
-                                        // verified edge by edge and the cycle is found)
-                                        && self.scc_at_exec.get(h).or(self.scc_at_start.get(h)).map(|s| !s.is_empty()).unwrap_or(true)
+                                        // verified edge by edge and the cycle is found); after an
+                                        // injected panic the executions of the faulted step are not in
+                                        // the log, so membership is unknown and the test is lenient
+                                        && (crate::fault::fired() || self.scc_at_exec.get(h).or(self.scc_at_start.get(h)).map(|s| !s.is_empty()).unwrap_or(true))
                                     {
                                         self.tainted = true;
                                     }
